@@ -14,6 +14,7 @@ import GivaroModel.Lemmas.PrimesDivisors
 import GivaroModel.Lemmas.PrimesFactor
 import GivaroModel.Lemmas.PrimesFermat
 import GivaroModel.Lemmas.Primes16All
+import GivaroModel.Lemmas.PrimesContainers
 namespace Givaro.Props.C12
 open Givaro Givaro.Model.Primes Givaro.Spec.Primes Givaro.Lemmas.Primes Givaro.Lemmas.PrimesTab
 
@@ -472,6 +473,35 @@ theorem primes16_mem (p : Nat) : p ∈ primes16 ↔ Nat.Prime p ∧ p < 65536 :=
   simp [and_comm]
 
 theorem primes16_count : primes16.length = primes16Size := by decide +kernel
+
+/-! ## Output containers that are not empty on entry -/
+
+/-- `divisors(L, Lf, Le)` (hence `divisors(L, n)`) *assigns* its result: whatever `L` held before — a previous result, junk, the
+    list of factors itself — the list left in `L` is the divisor list of the input alone -/
+theorem divisorsInto_eq (old : List Nat) (fs : List (Nat × Nat)) : divisorsInto old fs = divisors fs := rfl
+
+/-- … so on a reused container it is still exactly `Nat.divisors`, each divisor once -/
+theorem divisorsInto_exact (old : List Nat) (fs : List (Nat × Nat)) (hp : ∀ pe ∈ fs, Nat.Prime pe.1)
+    (hnd : (fs.map Prod.fst).Nodup) :
+    (divisorsInto old fs).Nodup ∧ (divisorsInto old fs).toFinset = Nat.divisors (prodPow fs) :=
+  ⟨divisors_nodup fs hp hnd, divisors_eq_nat_divisors fs hp⟩
+
+/-- `set(Lf, Lo, n)` *appends*: on containers that already hold `old`, the result is `old` followed by the factorisation `set`
+    computes from empty containers, and the flag is the same -/
+theorem setInto_eq (pf : Nat → Nat) (old : List (Nat × Nat)) (n : Int) :
+    setInto pf old n = (Givaro.Model.Primes.set pf n).map (fun r => (old ++ r.1, r.2)) := setInto_eq_append pf old n
+
+/-- … hence, for every prime-factor oracle and `n ≠ 0`: `old` untouched in front, then distinct primes with product `|n|` -/
+theorem setInto_complete (pf : Nat → Nat) (hpf : ∀ m, 1 < m → Nat.Prime (pf m) ∧ pf m ∣ m) (old : List (Nat × Nat))
+    (n : Int) (hn : n ≠ 0) :
+    ∃ fs, setInto pf old n = some (old ++ fs, true) ∧ (∀ pe ∈ fs, Nat.Prime pe.1 ∧ 1 ≤ pe.2) ∧
+      (fs.map Prod.fst).Nodup ∧ prodPow fs = n.natAbs := by
+  obtain ⟨fs, h1, h2⟩ := set_complete pf hpf n hn
+  exact ⟨fs, by rw [setInto_eq, h1]; rfl, h2⟩
+
+/-- `set(Lf, n)` appends likewise -/
+theorem set1Into_eq (pf : Nat → Nat) (old : List Nat) (n : Int) :
+    set1Into pf old n = (set1 pf n).map (fun r => old ++ r) := set1Into_eq_append pf old n
 
 /-! ## Non-vacuity of the hypotheses -/
 
